@@ -19,16 +19,37 @@ def pools(rt):
     return scal, lists, E
 
 
+def shape(x):
+    """an argument after the call, in a form comparable across the two copies (each side gets its own deep copy of the arguments)"""
+    if isinstance(x, (list, tuple)):
+        return [shape(i) for i in x]
+    if callable(x):
+        return 'callable'
+    if type(x).__name__ in ('EmptyCell', 'Undefined'):
+        return type(x).__name__
+    return (type(x).__name__, repr(x))
+
+
 def call_both(name, gen, ab, args):
+    import copy
+    after = {}
+
     def one(o):
         f = getattr(o, name)
+        mine = copy.deepcopy(args)
         try:
-            return ('ok', f(*args))
+            return ('ok', f(*mine))
         except RecursionError:
             return ('exc', 'RecursionError')
         except Exception as e:  # noqa
             return ('exc', type(e).__name__)
+        finally:
+            after[id(o)] = shape(mine)
     a, b = one(gen), one(ab)
+    if a == b or (a[0] == b[0] == 'ok'):
+        # what the helper did to the CALLER's arguments is behaviour too
+        if after[id(gen)] != after[id(ab)]:
+            return ('ok', 'arguments after the call', repr(after[id(gen)])[:300]), ('ok', 'arguments after the call', repr(after[id(ab)])[:300])
 
     def canon(x):
         k, v = x
@@ -108,6 +129,20 @@ def emptycell_differential(R):
                 R.count(('EmptyCell', name, repr(v)[:60], swap), True)
                 if a != b and len(found) < 3:
                     found.append({'helper': 'EmptyCell.__%s__' % name, 'args': '(%s%r)' % ('reflected, ' if swap else '', v), 'generated': a, 'base': b})
+    # call histories of the two state-carrying entry points: overrides given in two calls, then read back
+    def hist(o):
+        try:
+            x = type(o)()
+            x.set_arguments([{'uid': '_0_0_0', 'value': 1}, {'uid': '_0_1_0', 'value': 'a'}])
+            x.set_arguments([{'uid': '_0_1_0', 'value': 2}])
+            x.set_arguments([])
+            return ('ok', repr(sorted(x._arguments.items())))
+        except Exception as ex:  # noqa
+            return ('exc', type(ex).__name__)
+    a, b = hist(gen), hist(ab)
+    R.count(('history', 'set_arguments x3'), True)
+    if a != b and len(found) < 3:
+        found.append({'helper': 'set_arguments', 'args': "three calls: [_0_0_0:=1, _0_1_0:='a'], [_0_1_0:=2], []; then the stored overrides", 'generated': a, 'base': b})
     for extra in ('str', 'repr', 'bool', 'int', 'float', 'hash'):
         def one2(o):
             try:
